@@ -4,16 +4,16 @@ export MUT_LAB=${MUT_LAB:-/tmp/mutlab}
 scope=$1; shift
 for name in "$@"; do
   d=/verif/seeded/$name; prop=${name%%-*}
-  python3 /verif/tools/seeded.py try $d/patch.diff $prop $scope > $d/check-results.json 2>&1
+  python3 /verif/tools/seeded.py try $d/patch.diff $prop $scope > $d/${OUTNAME:-check-results.json} 2>&1
   python3 - "$d" "$name" <<'PY'
 import json,sys
 d,name=sys.argv[1],sys.argv[2]
 try:
-    r=json.load(open(d+"/check-results.json"))
+    r=json.load(open(d+"/"+__import__("os").environ.get("OUTNAME","check-results.json")))
     own=r["own"]
     print(f"=== {name}: own exit {own['exit']} {[c[:170] for c in own['clauses']][:2]}")
     print("    others:", {k:[c[7:90] for c in v['clauses']][:1] or v.get('harness') for k,v in r.get('others_alarmed',{}).items()})
 except Exception as e:
-    print(f"=== {name}: could not parse results: {e}"); print(open(d+"/check-results.json").read()[-600:])
+    print(f"=== {name}: could not parse results: {e}"); print(open(d+"/"+__import__("os").environ.get("OUTNAME","check-results.json")).read()[-600:])
 PY
 done
